@@ -722,6 +722,45 @@ def equal_polylines(rng, n):
     return srcs
 
 
+def gen_collinear_case(rng):
+    """an Ampere loop around one side of an unrotated closed Polyline at the origin (dyadic vertices) with
+    one CORNER exactly on the straight extension of another side - a free-space point, off the wire - so
+    that every getH call of the quadrature contains an observer that is exactly collinear with a segment
+    (the corners are among the observers added to every call); currents far from 1 A, optionally a second
+    loop with a current of the opposite sign"""
+    for _ in range(40):
+        s = rng.choice([0.5, 1.0, 2.0])
+        V = np.array([[0, 0, 0], [s, 0, 0], [s, s, 0.5 * s], [0, s, 0], [0, 0, 0]], dtype=float)
+        cur = rng.choice([-1, 1]) * rng.uniform(1.5, 8.0)
+        srcs = [{"type": "Polyline", "pos": [0.0, 0.0, 0.0], "rotvec": [0.0, 0.0, 0.0], "vertices": V.tolist(),
+                 "current": cur}]
+        if rng.random() < 0.5:
+            other = gen_source(rng, "Polyline")
+            other["current"] = -math.copysign(rng.uniform(1.5, 8.0), cur)
+            srcs.append(other)
+        # the corner: on the extension of side k beyond its end point, exact in binary64
+        k = rng.randrange(4)
+        p0 = V[k + 1] + rng.choice([0.5, 1.0, 2.0]) * (V[k + 1] - V[k])
+        # three more corners around the middle of another side
+        j = (k + rng.choice([1, 2, 3])) % 4
+        w = 0.5 * (V[j] + V[j + 1])
+        t = (V[j + 1] - V[j]) / np.linalg.norm(V[j + 1] - V[j])
+        n1 = np.cross(t, runit(rng))
+        n1 /= np.linalg.norm(n1)
+        n2 = np.cross(t, n1)
+        rho = s * rng.uniform(0.15, 0.35)
+        a0 = rng.uniform(0, 2 * math.pi)
+        ring = [w + rho * (math.cos(a0 + q) * n1 + math.sin(a0 + q) * n2) + 0.1 * rho * rng.uniform(-1, 1) * t
+                for q in (0.0, 2.1, 4.2)]
+        case = {"law": "circ", "sources": srcs, "coll": None if len(srcs) == 1 or rng.random() < 0.5 else
+                {"move": [0.0, 0.0, 0.0], "rotvec": [0.0, 0.0, 0.0]}, "focus": 0,
+                "entry": rng.choice(["func", "method", "sensor"]), "place": "collinear-corner", "size_factor": rho / s,
+                "geom": {"kind": "polygon", "verts": [list(map(float, p0))] + [list(map(float, v)) for v in ring]}}
+        if clearance_ok(Scene(case), Geom(case["geom"]))[0]:
+            return case
+    return None
+
+
 def gen_case(rng, law, kinds, coll=False):
     equal = coll == "equal-polylines"
     if equal:
@@ -938,6 +977,7 @@ def sweep(ctx, n_per_kind, n_coll, seconds, n_special=0, min_evals=2e4):
     if "Polyline" in KINDS and n_special:
         for i in range(3 * n_special):
             plan.append(("circ", ["Polyline"] * (2 + i % 2), "equal-polylines"))
+        plan += [("circ", ["Polyline"], "collinear")] * (2 * n_special)
     if "TriangularMesh" in KINDS and n_special:
         try:
             off = ray_start_constants()
@@ -957,6 +997,8 @@ def sweep(ctx, n_per_kind, n_coll, seconds, n_special=0, min_evals=2e4):
         try:
             if isinstance(coll, tuple):
                 case = coll[1]
+            elif coll == "collinear":
+                case = gen_collinear_case(rng)
             else:
                 case = gen_special_case(rng, law, kinds[0]) if coll == "special" else gen_case(rng, law, kinds, coll)
         except FieldRaised as e:
